@@ -173,6 +173,22 @@ theorem condTableOf_none_iff (g : CondGraph) (p m : List (String × J)) :
         · have := ih.2 ⟨k, hk, hkv⟩
           rw [ht] at this; cases this
 
+theorem lookup_setMember (k : String) (v : J) : ∀ l : List (String × J), J.lookup k (setMember k v l) = some v
+  | [] => by simp [setMember, J.lookup_cons]
+  | (k', x) :: rest => by
+    by_cases e : k' = k
+    · simp [setMember, e, J.lookup_cons]
+    · simp only [setMember, e, if_false, J.lookup_cons]
+      exact lookup_setMember k v rest
+
+/-- C02_condition_name_kept: the resolved resource carries, as its Condition attribute, the condition's name exactly as
+    written in the template (it is a name, not text: `True` stays `True`), so a second resolve looks up the same condition -/
+theorem C02_condition_name_kept (okvs rkvs : List (String × J)) (c : String)
+    (ho : J.lookup "Condition" okvs = some (.str c)) :
+    ∃ kvs, keepConditionName (.obj okvs) (.obj rkvs) = .obj kvs ∧ J.lookup "Condition" kvs = some (.str c) := by
+  refine ⟨setMember "Condition" (.str c) rkvs, ?_, lookup_setMember "Condition" (.str c) rkvs⟩
+  simp [keepConditionName, ho]
+
 /-- more fuel never changes a value that was obtained (the bound only decides definedness) -/
 theorem condValue_mono (g : CondGraph) (p m : List (String × J)) :
     ∀ (fuel : Nat) (k : String) (b : Bool), condValue g p m fuel k = some b → condValue g p m (fuel + 1) k = some b
